@@ -160,7 +160,7 @@ func fieldSiblings(rng *rand.Rand, v uint32) []uint32 {
 		add(uint64(v) - 256*k)
 	}
 	add(uint64(rng.Uint32()&^0xff) | uint64(v&0xff)) // same low byte
-	add(uint64(v & 0xff))                           // reduced mod 256
+	add(uint64(v & 0xff))                            // reduced mod 256
 	add(uint64(v&0xffff) | uint64(rng.Uint32()&0xffff0000))
 	add(uint64(v) + 1) // honest neighbours
 	if v > 1 {
@@ -234,7 +234,9 @@ func Family(rng *rand.Rand) []*data.ContentHash {
 		push(func(h *data.ContentHash) {
 			h.Graph.CanonicalizationAlgorithm, h.Graph.MerkleTree = g.MerkleTree, g.CanonicalizationAlgorithm
 		})
-		push(func(h *data.ContentHash) { h.Graph.MerkleTree, h.Graph.DigestAlgorithm = g.DigestAlgorithm, g.MerkleTree })
+		push(func(h *data.ContentHash) {
+			h.Graph.MerkleTree, h.Graph.DigestAlgorithm = g.DigestAlgorithm, g.MerkleTree
+		})
 		push(func(h *data.ContentHash) {
 			h.Graph.CanonicalizationAlgorithm, h.Graph.DigestAlgorithm = g.DigestAlgorithm, g.CanonicalizationAlgorithm
 		})
@@ -247,9 +249,9 @@ func Family(rng *rand.Rand) []*data.ContentHash {
 	// hash-byte neighbours
 	push(func(h *data.ContentHash) { b := *hashOf(h); b[len(b)-1] ^= 1 })
 	push(func(h *data.ContentHash) { b := *hashOf(h); b[0] ^= 0x80 })
-	push(func(h *data.ContentHash) { p := hashOf(h); *p = (*p)[:len(*p)-1] })             // one byte shorter
-	push(func(h *data.ContentHash) { p := hashOf(h); *p = append(*p, 0) })                // one zero byte longer
-	push(func(h *data.ContentHash) { p := hashOf(h); *p = append([]byte{0}, (*p)...) })   // leading zero byte
+	push(func(h *data.ContentHash) { p := hashOf(h); *p = (*p)[:len(*p)-1] })              // one byte shorter
+	push(func(h *data.ContentHash) { p := hashOf(h); *p = append(*p, 0) })                 // one zero byte longer
+	push(func(h *data.ContentHash) { p := hashOf(h); *p = append([]byte{0}, (*p)...) })    // leading zero byte
 	push(func(h *data.ContentHash) { p := hashOf(h); *p = append([]byte{}, (*p)[1:]...) }) // first byte dropped
 	return fam
 }
